@@ -31,6 +31,14 @@ CLAIMED = {
    technique="contract-based deductive verification: VCs from the jaxpr of the real evaluate methods, uninterpreted "
              "residual map and network, ring normalisation + z3",
    design_ref="DESIGN.md §5 C03", note=B_NOTE + " Batch size and component count are enumerated (1..3)."),
+ "C04": dict(
+   text="The boundary term computed by the real code equals sum over facets (with a condition) of the mean over that "
+        "facet's rows of w*|D[N](p) - f(p)|^2 with D = selected components (Dirichlet) or the derivative along the "
+        "outward normal (Neumann), for 1-D/2-D, stationary/non-stationary, global and per-facet dict specs (None "
+        "skipped), f returning (), (1,) or (k,), for all networks, f, border points and weights.",
+   technique="contract-based deductive verification: VCs from the jaxpr of boundary_condition_apply / the four boundary "
+             "functions over uninterpreted network and f, ring normalisation + z3",
+   design_ref="DESIGN.md §5 C04", note=B_NOTE + " Rows per facet enumerated 1..3; facet order is the generator's (C08)."),
 }
 PENDING_REASON = "check not built yet (framework under construction); will be claimed once its contracts verify"
 NA = {}
